@@ -61,7 +61,7 @@ def run(ctx, replay):
                         "real stdout/stderr never fail",
                         "a diagnostic record is recognised by its message text 'slog print log failed'",
                         "attempts are compared as bags of (writer, phase, failed) per call"]
-    return ctx.finish(rule="every transition of the exhaustive MC graph executed: every writer layout x logger level x severity class "
+    return ctx.finish(level="fault_enumeration", rule="every transition of the exhaustive MC graph executed: every writer layout x logger level x severity class "
                            "x fault assignment (all subsets of {record, diagnostic} x 2 writers, plus duplicate-entry cases); each "
                            "LogF edge issues one record under that assignment and TLC compares the attempts seen with Deliver(); "
                            "fault-free probes after every call check recovery; + seeded random histories",
